@@ -4,10 +4,6 @@ NOTES = ("Technique: machine-checked proof in Coq 8.16.1 about a hand-written ex
          "correspondence check (extracted OCaml model vs. the Go implementation on the same inputs) that runs on "
          "every check.  See DESIGN.md.")
 NOT_YET = {
-    "C33": "not claimed: the keep-alive loop is modelled as a wrapper around the client model (coq/Client/ClKeepalive.v) with a "
-           "monitor (coq/Checkers/ChkCl4.v), but the blocking of notifyStateChange on the capacity-1 channel and the choice of "
-           "Go's select between a pending tick and a pending state change are outside this sequential executable model and the "
-           "theorems are not finished, so no proof-level claim is made",
 }
 COMMON_NOTE = ("Trusted: Coq kernel, ExtrOcamlBasic extraction, hand-written OCaml/Go glue; the model is hand-written and "
                "tied to /repo by differential execution (testing) on generated inputs, not by proof.")
@@ -305,6 +301,23 @@ TEXT.update({
         "technique": "Coq refutation witnesses + step lemmas + keep-alive window monitor on the implementation traces",
     },
 })
+
+TEXT["C33"] = {
+    "level": "The keep-alive loop is modelled as a wrapper around the client model (ticker, pending tick, capacity-1 state channel, "
+             "the loop blocked inside c.ping()). Theorem C33_loop_pings_only_when_active: in EVERY history inside the sequential model "
+             "the loop starts a ping only at an instant at which the client is active (invariant over the wrapper + frame lemmas "
+             "about cl_step). Refutations with witnesses replayed on the real client in every run: a ping unanswered at sleep time is "
+             "retransmitted while asleep (33,2); the loop's ping takes the store slot of an API Ping call, which then fails (33,3). "
+             "Clause (33,1) (PINGREQ at least every max(KeepAlive, RetryDelay) while active and alive) is NOT proved: the monitor "
+             "checks it on the implementation and on the model in every run. The real Client with KeepAlive 1-3 s is compared "
+             "output-by-output with the wrapper model under synctest.",
+    "note": COMMON_NOTE + " Partial. Outside the model, nothing stated: a state change while the loop is inside a ping and the channel "
+            "already holds an unread change (the sender blocks in notifyStateChange), and Go's select choosing between a pending tick "
+            "and a pending state change; histories reaching these are counted (outside_keepalive_model) and neither compared nor "
+            "judged from that point. The harness builds with Go 1.26 timer-channel semantics (Stop/Reset discard a pending tick); "
+            "/repo's go.mod (go 1.16) selects the older semantics in production builds, under which a stale tick survives Stop.",
+    "technique": "Coq invariant proof over the keep-alive wrapper of the client model, refutation witnesses, and differential execution of the real Client with the keep-alive loop running under virtual time with a monitor",
+}
 
 TEXT["C26"] = {
     "level": "Theorems about the composed system (client model + lossless link + gateway model + specification broker, run to "
